@@ -152,7 +152,7 @@ func evalC02Main(test string) func(c *peCase) evalResult {
 func TestC02_Main(t *testing.T) {
 	haveBins(t, "stgutg_verif")
 	r := ev.New(t, "C02", "TestC02_Main")
-	n := ev.N(48, 1500)
+	n := ev.N(48, 4000)
 	maxR := 5
 	if ev.Tier() == "thorough" {
 		maxR = 10
